@@ -61,7 +61,8 @@ func toV2(a map[string]interface{}) v2t.AttributeValue {
 		case "BOOL":
 			return &v2t.AttributeValueMemberBOOL{Value: v.(bool)}
 		case "NULL":
-			return &v2t.AttributeValueMemberNULL{Value: true}
+			nb, isBool := v.(bool)
+			return &v2t.AttributeValueMemberNULL{Value: !isBool || nb} // {"NULL": false} is sent as such
 		case "SS":
 			return &v2t.AttributeValueMemberSS{Value: strs(v)}
 		case "NS":
@@ -123,7 +124,7 @@ func fromV2(a v2t.AttributeValue) AV {
 	case *v2t.AttributeValueMemberBOOL:
 		return AV{"BOOL": v.Value}
 	case *v2t.AttributeValueMemberNULL:
-		return AV{"NULL": true}
+		return AV{"NULL": v.Value}
 	case *v2t.AttributeValueMemberSS:
 		return AV{"SS": sstrs(v.Value)}
 	case *v2t.AttributeValueMemberNS:
@@ -167,6 +168,9 @@ func toV1(a map[string]interface{}) *v1.AttributeValue {
 			return &v1.AttributeValue{BOOL: &b}
 		case "NULL":
 			b := true
+			if nb, isBool := v.(bool); isBool {
+				b = nb // {"NULL": false} is sent as such
+			}
 			return &v1.AttributeValue{NULL: &b}
 		case "SS", "NS":
 			l := []*string{}
@@ -234,7 +238,7 @@ func fromV1(v *v1.AttributeValue) AV {
 	case v.BOOL != nil:
 		return AV{"BOOL": *v.BOOL}
 	case v.NULL != nil:
-		return AV{"NULL": true}
+		return AV{"NULL": *v.NULL}
 	case v.B != nil:
 		return AV{"B": b2l(string(v.B))}
 	case v.L != nil:
@@ -333,7 +337,7 @@ func fromMT(v *mt.Item) AV {
 	case v.BOOL != nil:
 		return AV{"BOOL": *v.BOOL}
 	case v.NULL != nil:
-		return AV{"NULL": true}
+		return AV{"NULL": *v.NULL}
 	case v.B != nil:
 		return AV{"B": b2l(string(v.B))}
 	case v.L != nil:
